@@ -153,7 +153,7 @@ _TEXT = "rendering text converts no integer: "
 JUSTIFIED_RENDER = [
     ("Pattern.error_message", lambda t: t == "repr(self.params['pattern'])", "ValueError",
      _TEXT + "the pattern keyword is a string (metaschema: `pattern` has type string)", None),
-    ("AdditionalProperties.error_message", lambda t: ".format(properties=set(" in t, "ValueError",
+    ("AdditionalProperties.error_message", lambda t: ".format(" in t, "ValueError",
      _TEXT + "the set holds the declared property names", None),
     ("ValidationError.combine", lambda t: t == "str(exc)", "ValueError",
      _TEXT + "`exc` is an exception that was already built, str() returns its message", None),
